@@ -151,9 +151,10 @@ class Interp:
         if isinstance(v, VString):
             return z3.Length(v.t) > 0
         if isinstance(v, VSeq):
-            return z3.Length(v.t) > 0
+            return z3.BoolVal(False) if v.t is None else z3.Length(v.t) > 0
         if isinstance(v, VList):
-            return z3.Length(self.st.list_cell(v.loc).term) > 0
+            t = self.st.list_cell(v.loc).term
+            return z3.BoolVal(False) if t is None else z3.Length(t) > 0
         if isinstance(v, VTuple):
             return z3.BoolVal(len(v.items) > 0)
         if isinstance(v, VDict):
@@ -960,6 +961,10 @@ class Interp:
         base = self.eval(e.value, fr)
         if getattr(base, 'frame_indexer', None):
             return self.spec_funcs['frame_index'](self, base, e.slice, fr)
+        if isinstance(base, VFrame) and isinstance(e.slice, ast.Slice) and 'frame_index' in self.spec_funcs:
+            # frame[a:b] slices rows positionally, like .iloc[a:b]
+            ix = self.spec_funcs['frame_attr'](self, base, 'iloc')
+            return self.spec_funcs['frame_index'](self, ix, e.slice, fr)
         if isinstance(e.slice, ast.Slice):
             return self.get_slice(base, e.slice, fr)
         key = self.eval(e.slice, fr)
@@ -1839,6 +1844,10 @@ def _b_list(I, args, kwargs, fr):
     return I.st.new_list(t, k)
 
 
+def self_list_pytype(I, v):
+    return I.st.list_cell(v.loc).pytype
+
+
 def _b_isinstance(I, args, kwargs, fr):
     v, c = args
     names = [x.name for x in c.items] if isinstance(c, VTuple) else [c.name]
@@ -1856,6 +1865,8 @@ def _b_isinstance(I, args, kwargs, fr):
             res = res or isinstance(v, (VDict, VMdEntry))
         elif n == 'Stream':
             res = res or isinstance(v, (VObj, VRef))
+        elif n == 'deque':
+            res = res or (isinstance(v, VList) and self_list_pytype(I, v) == 'deque')
         elif n == 'Number':
             res = res or (isinstance(v, (VInt, VReal)) and not isinstance(v, VVec))
         elif n == 'Iterable':
